@@ -224,6 +224,12 @@ pub fn run(args: &Args) -> Report {
     let mut rep = Report::new("C19", "model_checking");
     if let Some(r) = &args.replay {
         let rp = &r["replay"];
+        if rp["harness"] == "c19-extreme" {
+            for (what, rp) in super::c10::stage_semantic_fetch_mismatches(args.seed).1.into_iter().take(1) {
+                rep.violations.push(Violation { key: "extreme_range_decision".into(), what, replay: rp });
+            }
+            return rep;
+        }
         let sc = rp["config"]["scenario"].as_u64().unwrap_or(1) as u32;
         let devs: core::Deviations = rp["deviations"].as_array().map(|a| a.iter().map(|p| (p[0].as_u64().unwrap() as u32, p[1].as_u64().unwrap() as u32)).collect()).unwrap_or_default();
         let (res, div) = core::replay_one(&|ch: &Ch| run_once(ch, sc), devs);
@@ -253,6 +259,11 @@ pub fn run(args: &Args) -> Report {
         rep.absorb("c19", &st, json!({"scenario": sc}));
         stats.push(st.to_json());
     }
+    // extreme announced ranges (shared with C10 part c): the queue's decision equals range membership
+    let (extreme_cases, mism) = super::c10::stage_semantic_fetch_mismatches(args.seed);
+    for (what, rp) in mism.into_iter().take(1) {
+        rep.violations.push(Violation { key: "extreme_range_decision".into(), what: format!("[extreme_range_decision] {what}"), replay: rp });
+    }
     if rep.violations.is_empty() && fails == 0 {
         rep.machinery_errors.push("vacuous: no accepted call ever failed or disconnected".into());
     }
@@ -262,10 +273,12 @@ pub fn run(args: &Args) -> Report {
         "samples": [
             {"scenario": 1, "case": "requests for blocks 3,5,7 (7 with a deadline), peer 0 announces 0..5 then 0..9, peer 1 announces 0..9; every accepted call succeeds / fails / disconnects by environment choice"},
             {"scenario": 2, "case": "requests 5 and 6, both peers announce 0..5, peer 0 later 0..6"},
+            {"scenario": "extreme ranges", "case": "one peer announcing {first, last} over {0,1,2,2^63-1,2^64-2,2^64-1} (PreGenesis and FinalV2 ends), one wanted block from the same set: accepted iff first <= n <= last"},
         ],
         "rule": "a state is one complete execution (schedule + environment answers) of the driver around the real fetch::Queue; all executions within the deviation bound; distinct = distinct event logs",
         "deviation_bound": bound, "exhaustive": !capped, "capped_by_time_budget": capped,
         "witness_failed_or_disconnected_calls": fails,
+        "extreme_announced_range_cases": extreme_cases,
         "explorations": stats,
     });
     rep.assumptions = vec!["task switches only at awaits that return Pending; 'lowest missing block first' is checked through the lost-wake-up condition at quiescence, not at every accept".into()];
